@@ -507,13 +507,21 @@ class StmtMixin:
             self.st.dhas = z3.Store(self.st.dhas, r, z3.Select(old[2], r))
             self.st.dval = z3.Store(self.st.dval, r, z3.Select(old[3], r))
             self.st.dlen = z3.Store(self.st.dlen, r, z3.Select(old[4], r))
-        # tuples created on this path are immutable: nothing can have changed them
+        # tuples created on this path are immutable; lists / dicts created on this path that were never handed to
+        # other code nor stored anywhere are unreachable for the code whose effect is being havocked
         tup = self.table.id("tuple")
+        seqs = {self.table.id(n) for n in ("list", "set", "frozenset", "deque")}
+        dcts = {self.table.id(n) for n in ("dict", "OrderedDict")}
         for rid, cid in self.st.alloc_class.items():
-            if cid == tup:
-                r = z3.IntVal(rid)
+            private = rid not in self.st.escaped
+            r = z3.IntVal(rid)
+            if cid == tup or (private and cid in seqs):
                 self.st.llen = z3.Store(self.st.llen, r, z3.Select(old[0], r))
                 self.st.lel = z3.Store(self.st.lel, r, z3.Select(old[1], r))
+            elif private and cid in dcts:
+                self.st.dhas = z3.Store(self.st.dhas, r, z3.Select(old[2], r))
+                self.st.dval = z3.Store(self.st.dval, r, z3.Select(old[3], r))
+                self.st.dlen = z3.Store(self.st.dlen, r, z3.Select(old[4], r))
         if hasattr(self, "reassume_invariants"):
             self.reassume_invariants()
 
